@@ -233,6 +233,17 @@ def run(pid, tier, seed, replay_only=None):
             if v['ok']:
                 v['retried'] = True
                 res[k] = v
+        # a last, generous attempt for the very few that are still inconclusive (a loaded machine must not turn a slow proof
+        # into an alarm); a genuinely failing obligation stays inconclusive and is reported
+        last = [j for j in retry if not res[j['id']]['ok'] and res[j['id']]['verdict'] in ('unknown', 'error')]
+        if last and len(last) <= 3:
+            for j in last:
+                j['budget_s'] = budget * 10
+            res3 = solve.solve_all(last)
+            for k, v in res3.items():
+                if v['ok']:
+                    v['retried'] = True
+                    res[k] = v
 
     # ---- store fresh per-function results in the content-hash cache ------------------
     def _obd(ob):
